@@ -143,7 +143,10 @@ def translate(cfg, outdir):
                             ex = [x for x in f.get("inner", []) if x.get("kind") != "FullComment"]
                             if ex:
                                 em.field_inits[(cls, f["name"])] = ex[-1]
-        sig, text, unit = em.emit_function(node, cname, cls if node["kind"] != "FunctionDecl" else None, static)
+        try:
+            sig, text, unit = em.emit_function(node, cname, cls if node["kind"] != "FunctionDecl" else None, static)
+        except Unsupported as e:
+            raise Unsupported("%s [unit %s]" % (e, u["name"]))
         em.unit_names.add(cname)
         rng = node.get("range", {})
         b = rng.get("begin", {})
